@@ -73,6 +73,9 @@ type JApiCore struct {
 	// useFixedSeedForRegex use specific constant seed for generating regex example.
 	// Should be used for tests.
 	useFixedSeedForRegex bool
+
+	// verif holds verification-hook state (empty unless built with the verif tag).
+	verif verifState
 }
 
 type Option func(*JApiCore)
